@@ -100,3 +100,25 @@ Theorem C11_delegated_placements : forall legacy use_proxy csa creds i,
   serve legacy use_proxy csa creds i = {| s_replies := []; s_dialed := use_proxy; s_next := Some i |}.
 Proof. exact serve_delegated. Qed.
 Print Assumptions C11_delegated_placements.
+
+(* acceptance is membership of the PAIR: whatever is configured, a presented (user, password) is
+   accepted iff exactly that pair is in the list (no encoding of the pair into one string is involved) *)
+Theorem C11_pair_membership_exact : forall (creds : list cred) i u p r,
+  creds <> [] -> presents i u p r ->
+  (out (handle_auth false creds i) = Authenticated <-> In (u, p) creds).
+Proof. exact pair_membership_exact. Qed.
+Print Assumptions C11_pair_membership_exact.
+
+(* in particular the user/password boundary matters: of two pairs with the same u ++ sep ++ p
+   (any separator, also none) only the configured one is accepted; the other gets 01 01, nothing is dialled,
+   the request is not read *)
+Theorem C11_pair_boundary_matters : forall (creds : list cred) sep u p u' p' i i' r,
+  In (u, p) creds -> ~ In (u', p') creds ->
+  u ++ sep ++ p = u' ++ sep ++ p' ->
+  presents i u p r -> presents i' u' p' r ->
+  out (handle_auth false creds i) = Authenticated /\
+  handle_auth false creds i' =
+    {| replies := [[VER; M_USERPASS]; [SUBVER; ST_FAIL]]; out := Rejected; rest := r |} /\
+  s_next (serve false true true creds i') = None /\ s_dialed (serve false true true creds i') = false.
+Proof. exact pair_boundary_matters. Qed.
+Print Assumptions C11_pair_boundary_matters.
